@@ -366,6 +366,8 @@ class SpecState:
             return SV(loc[name], self.h, self.ex)
         sk = self.extra.setdefault("skolem", {})
         if name not in sk:
+            if ty.kind == "rec":
+                self.ex.rec_sort(ty.args[0])          # the record sort may not have been needed yet in the calling function
             v = V.fresh(ty, "wit_" + name)
             sk[name] = v
         return SV(sk[name], self.h, self.ex)
